@@ -26,8 +26,10 @@ def search_payloads(tier, seed, diffs):
 def task(W, payload):
     import jax, jax.numpy as jnp
     r = random.Random(f"C19:{payload['seed']}:{payload['index']}")
-    prog = Gen(r, Opts(max_strats=2, max_flows=5, n_requests=4, allow_rebalance=True)).program()
+    # every third program supplies the whole initial population as an array graph object of parameters (init_population_with_graphobject)
+    prog = Gen(r, Opts(max_strats=2, max_flows=5, n_requests=4, allow_rebalance=True, allow_array_pop=(payload["index"] % 3 == 0))).program()
     out = mk_out(prog)
+    if any(op["op"] == "init_pop_array" for op in prog["build"]): bump(out, "array_population")
     from interp import Interp
     I = Interp()
     for op in prog["build"]:
@@ -67,6 +69,19 @@ def task(W, payload):
             if np.all(np.isfinite(ob)) and np.abs(ob).max() < 1e7 and not mat_close(oa.tolist(), ob.tolist(), 1e-9):
                 fail(out, "a runner compiled once gives different results from a fresh evaluation at other parameter values", "c19", payload,
                      params=p2, program=prog["build"])
+            # ... and so must its derived outputs, against a runner BUILT at these values (a parameter that only derived outputs use
+            # must not be baked into the compiled program as the constant it had when the runner was built)
+            fresh = m.get_runner(p2, jit=False, solver="euler")._run_func(parameters=p2)
+            da, df = a["derived_outputs"], fresh["derived_outputs"]
+            if sorted(da) != sorted(df):
+                fail(out, "a runner compiled once returns different derived outputs names at other parameter values", "c19", payload, params=p2, program=prog["build"])
+            else:
+                for kk in da:
+                    x, y = np.asarray(da[kk], dtype=float), np.asarray(df[kk], dtype=float)
+                    if np.all(np.isfinite(y)) and np.abs(y).max() < 1e7 and (x.shape != y.shape or np.abs(x - y).max() > 1e-9 * max(1.0, float(np.abs(y).max()))):
+                        fail(out, f"a runner compiled once gives a different derived output '{kk}' from a runner built at the new parameter values", "c19", payload,
+                             params=p2, built_with=params, program=prog["build"])
+                        break
     except BaseException as e:
         name = type(e).__name__
         if "Concretization" in name or "Tracer" in name:
